@@ -173,7 +173,7 @@ def done_rule(ctx: Ctx, rid: str) -> None:
             "instruction_loaded is not `self.loaded_instruction is not None`")
 
 
-def load_rules(ctx: Ctx, rid: str = "R13.load") -> None:
+def load_rules(ctx: Ctx, rid: str = "R13.load", icache_only: bool = False) -> None:
     m = ctx.model
     eff = effects(ctx)
     r = ctx.rule(rid, "load_program resets both memories before parsing, on every path")
@@ -198,7 +198,7 @@ def load_rules(ctx: Ctx, rid: str = "R13.load") -> None:
                         res = eff.ts.resolve_call(c, f)
                         if any(t.qname.endswith("RiscvParser.parse") for t in res.targets):
                             parsed = True
-                            for need in ("memory", "instruction_memory"):
+                            for need in (("instruction_memory",) if icache_only else ("memory", "instruction_memory")):
                                 if need not in seen:
                                     r.viol(f"{key}|{need}", f.loc(c),
                                            f"{key}: parser runs before state.{need}.reset() on some path",
@@ -210,7 +210,7 @@ def load_rules(ctx: Ctx, rid: str = "R13.load") -> None:
     f = m.method("ToySimulation", "load_program", own=True)
     key = "ToySimulation.load_program"
     npaths = 0
-    for p in function_paths(f.node):
+    for p in ([] if icache_only else function_paths(f.node)):
         npaths += 1
         fresh = False
         parsed = False
@@ -235,14 +235,16 @@ def load_rules(ctx: Ctx, rid: str = "R13.load") -> None:
                                        p.labels())
         if p.term != "raise" and not parsed:
             r.viol(f"{key}|parse", f.loc(), f"{key}: a path never reaches ToyParser.parse", p.labels())
-    r.inst(key, {"paths": npaths})
-    r.floor(2)
+    if not icache_only:
+        r.inst(key, {"paths": npaths})
+    r.floor(1 if icache_only else 2)
 
     r = ctx.rule(rid.split(".")[0] + ".reset", "reset() rebuilds every field execution or a failed load can change")
-    check_reset(ctx, r, "Memory", fields={"memory_file": "empty"})
+    if not icache_only:
+        check_reset(ctx, r, "Memory", fields={"memory_file": "empty"})
+        check_reset(ctx, r, "BaseCacheMemorySystem", fields={"cache": "reconstruct", "memory": "delegate"})
     check_reset(ctx, r, "InstructionMemory", fields={"instructions": "empty"})
-    check_reset(ctx, r, "BaseCacheMemorySystem", fields={"cache": "reconstruct", "memory": "delegate"})
     check_reset(ctx, r, "InstructionMemoryCacheSystem",
                 fields={"cache": "reconstruct", "instruction_memory": "delegate",
                         "hits": "init", "accesses": "init", "last_was_hit": "init"})
-    r.floor(4)
+    r.floor(2 if icache_only else 4)
